@@ -149,6 +149,40 @@ theorem whileFuel_diag (cond : St × List Int → Except String Bool) (body : St
         rw [this]
         rfl
     · simp [h]; rfl
+theorem npDiagonal_error {s : St} {a b : Nat} {e : String} (h : s.npDiagonal a b = .error e) : e = "ValueError" := by
+  unfold St.npDiagonal at h
+  split at h
+  · cases h; rfl
+  · split at h
+    · cases h; rfl
+    · cases h
+
+/-- The fuel `len(axes_in)` of the bounded reading of `while len(axes_in) > 1` is sufficient: the loop never ends
+with "FuelExhausted" (every iteration shortens the list by one), so the bounded loop is the unbounded one. -/
+theorem diagLoop_fuel_sufficient : ∀ (fuel : Nat) (s : St) (axes : List Nat), axes.length ≤ fuel + 1 →
+    diagLoop fuel s axes ≠ .error "FuelExhausted"
+  | 0, s, axes, h => by
+    have : ¬ (axes.length > 1) := by omega
+    simp [diagLoop, this]
+  | fuel + 1, s, axes, h => by
+    rw [diagLoop_succ]
+    by_cases hl : axes.length > 1
+    · simp only [hl, if_true]
+      unfold diagIter
+      obtain ⟨a, b, hab⟩ := drop_last_two axes hl
+      rw [hab]
+      simp only
+      cases hd : s.npDiagonal a b with
+      | error e =>
+        have := npDiagonal_error hd
+        subst this
+        simp
+      | ok s' =>
+        simp only
+        apply diagLoop_fuel_sufficient fuel s'
+        simp [List.length_take]
+        omega
+    · simp [hl]
 /-! ### the final permutation -/
 
 theorem filter_ne_ofNat (n a : Nat) :
